@@ -32,8 +32,9 @@ def gen_config(rng, *, kinds=None, scheduler=None, loss_kinds=None, max_params=4
     cfg = {
         "space": sd, "P": P, "D": D, "N": N, "E": E, "loss": loss, "lineup": lineup, "scheduler": sched, "model": model,
         "seed": int(rng.choice([0, 0, 1, 2**32 - 2])) if rng.random() < 0.2 else int(rng.integers(0, 2**31)), "real_seed": int(rng.integers(0, 2**31)), "conv": conv,
-        "sim_length_differs": bool(lk in ("msm", "likelihood") and rng.random() < 0.25),
+        "sim_length_differs": bool(lk in ("msm", "likelihood") and rng.random() < 0.3),
     }
+    cfg["real_len_delta"] = int(rng.choice([3, -3, 5]))   # real series longer or SHORTER than the simulated length
     if sched == "rl":
         cfg["rl"] = {"alpha": float(rng.choice([-1, 0.1, 0.5])), "eps": float(rng.choice([0.0, 0.1, 1.0])), "init": float(rng.choice([0.0, 0.05]))}
     return cfg
@@ -41,7 +42,7 @@ def gen_config(rng, *, kinds=None, scheduler=None, loss_kinds=None, max_params=4
 
 def real_data(cfg):
     r = np.random.default_rng(cfg["real_seed"])
-    n = cfg["N"] + (3 if cfg["sim_length_differs"] else 0)
+    n = cfg["N"] + (cfg.get("real_len_delta", 3) if cfg["sim_length_differs"] else 0)
     return r.normal(size=(n, cfg["D"]))
 
 
